@@ -437,6 +437,11 @@ Qed.
 Lemma is_padd_ev_app l1 l2 : existsb is_padd_ev (l1 ++ l2) = existsb is_padd_ev l1 || existsb is_padd_ev l2.
 Proof. apply existsb_app. Qed.
 
+(** an identity the RA itself adds for the key pair [k]: the private key, or a certificate over it *)
+Definition new_ident (k life : N) (x : ident) : Prop := x = key_ident k life \/ exists sn, x = cert_ident k sn life.
+Lemma new_ident_blob_key k life x : new_ident k life x -> blob_key (i_blob x) = k.
+Proof. intros [->|[sn ->]]; reflexivity. Qed.
+
 Lemma after_select_regular_store e po i c s s' ev r :
   after_select e po i (Regular c) s = (s', ev, r) ->
   NoDup (map i_blob (s_store s)) ->
@@ -446,7 +451,7 @@ Lemma after_select_regular_store e po i c s s' ev r :
   exists rest, ev = EvGen i :: rest /\
     (forall x, In x (s_store s) -> labelled (i_comment x) = false -> In x (s_store s')) /\
     NoDup (map i_blob (s_store s')) /\
-    (forall x, In x (s_store s') -> In x (s_store s) \/ (blob_key (i_blob x) = k /\ po <> None)) /\
+    (forall x, In x (s_store s') -> In x (s_store s) \/ (new_ident k life x /\ po <> None)) /\
     (forall ph id st v, In (EvAgent ph (RAdd id) st v) rest -> i_life id = life) /\
     (existsb is_padd_ev rest = false -> forall x, In x (s_store s) -> In x (s_store s')) /\
     (r = ROk tt ->
@@ -472,12 +477,12 @@ Proof.
   assert (Hstore2 :
     (forall x, In x (s_store s) -> In x (s_store s2)) /\
     NoDup (map i_blob (s_store s2)) /\
-    (forall x, In x (s_store s2) -> In x (s_store s) \/ (blob_key (i_blob x) = k /\ Some p <> None))).
+    (forall x, In x (s_store s2) -> In x (s_store s) \/ (new_ident k life x /\ Some p <> None))).
   { destruct rep as [|g| |l]; try (rewrite Hst; repeat split; auto; fail).
     - rewrite Hst. split; [|split].
       + intros x Hx. apply store_add_keeps; [exact Hx|]. intro Heq. apply (Hfresh x Hx). rewrite Heq. reflexivity.
       + apply store_add_nodup, Hnd.
-      + intros x Hx. apply store_add_inv in Hx as [->|Hx]; [right; split; [reflexivity | discriminate] | left; exact Hx].
+      + intros x Hx. apply store_add_inv in Hx as [->|Hx]; [right; split; [left; reflexivity | discriminate] | left; exact Hx].
     - destruct Hst as [_ [-> _]]. repeat split; auto. }
   destruct Hstore2 as [Hsub2 [Hnd2 Hinv2]].
   (* every way of stopping before delivery *)
@@ -486,7 +491,7 @@ Proof.
             exists rest, ev = EvGen i :: rest /\
               (forall y, In y (s_store s) -> labelled (i_comment y) = false -> In y (s_store s')) /\
               NoDup (map i_blob (s_store s')) /\
-              (forall y, In y (s_store s') -> In y (s_store s) \/ (blob_key (i_blob y) = k /\ Some p <> None)) /\
+              (forall y, In y (s_store s') -> In y (s_store s) \/ (new_ident k life y /\ Some p <> None)) /\
               (forall ph id st v, In (EvAgent ph (RAdd id) st v) rest -> i_life id = life) /\
               (existsb is_padd_ev rest = false -> forall y, In y (s_store s) -> In y (s_store s')) /\
               (rr = ROk tt ->
@@ -523,7 +528,7 @@ Proof.
             exists rest, ev = EvGen i :: rest /\
               (forall y, In y (s_store s) -> labelled (i_comment y) = false -> In y (s_store s')) /\
               NoDup (map i_blob (s_store s')) /\
-              (forall y, In y (s_store s') -> In y (s_store s) \/ (blob_key (i_blob y) = k /\ Some p <> None)) /\
+              (forall y, In y (s_store s') -> In y (s_store s) \/ (new_ident k life y /\ Some p <> None)) /\
               (forall ph id st v, In (EvAgent ph (RAdd id) st v) rest -> i_life id = life) /\
               (existsb is_padd_ev rest = false -> forall y, In y (s_store s) -> In y (s_store s')) /\
               (rr = ROk tt ->
@@ -554,7 +559,7 @@ Proof.
   split; [exact Hnd4|].
   split.
   { intros x Hx. apply Hinv4 in Hx as [Hx|[sn ->]]; [apply Hinv2; exact Hx|].
-    right. split; [reflexivity | discriminate]. }
+    right. split; [right; exists sn; reflexivity | discriminate]. }
   split.
   { intros ph id st v Hin. apply in_app_or in Hin as [Hin|Hin]; [eauto|].
     apply in_app_or in Hin as [Hin|Hin]; [eauto|].
@@ -643,7 +648,7 @@ Proof.
       [| rewrite Hst1; exact Hnd | rewrite Hst1, Hk1; exact Hfresh].
     injection Hev0 as <-. rewrite Hst1, Hk1 in *.
     split; [|split; [exact Hnd2|]].
-    2:{ intros x Hx. apply Hinv in Hx as [Hx|[Hx Hne]]; [left; exact Hx|]. right. split; [exact Hx|].
+    2:{ intros x Hx. apply Hinv in Hx as [Hx|[Hx Hne]]; [left; exact Hx|]. right. split; [exact (new_ident_blob_key _ _ _ Hx)|].
         destruct po as [p|]; [|contradiction]. destruct Hpo as [Hk2 _]. lia. }
     unfold oracle_c03_run. cbn [o_store o_log o_res].
     rewrite (split_gen_app _ _ _ Hao), Hnth.
@@ -686,27 +691,121 @@ Proof.
     + destruct (obs_res r2); [|reflexivity]. apply orb_true_iff. right. apply forallb_in_store. auto.
 Qed.
 
+(** ** At most one generation, without reference to a label *)
+
+(** every certificate identity of the store over a key of [old] is one the RA
+    added for that key *)
+Definition old_certs_ra (old : list N) (st : list ident) : Prop :=
+  forall x k' sn, In x st -> i_blob x = BCert k' sn -> In k' old -> exists life, x = cert_ident k' sn life.
+
+Lemma in_keys_In k l : in_keys k l = true <-> In k l.
+Proof.
+  unfold in_keys. rewrite existsb_exists. split.
+  - intros [y [Hy He]]. apply N.eqb_eq in He. subst. exact Hy.
+  - intro H. exists k. split; [exact H | apply N.eqb_refl].
+Qed.
+
+Lemma cert_label_labelled : labelled cert_label = true.
+Proof. vm_compute. reflexivity. Qed.
+
+Theorem oracle_c03_gen_model e po hs s old :
+  NoDup (map i_blob (s_store s)) ->
+  (forall n, (s_kdraws s <= n)%nat -> forall x, In x (s_store s) -> blob_key (i_blob x) <> e_keypair e n) ->
+  (forall n, (s_kdraws s <= n)%nat -> ~ In (e_keypair e n) old) ->
+  old_certs_ra old (s_store s) ->
+  let '(s', ev, r) := run_body e po hs s in
+  oracle_c03_gen old hs (mkObs (obs_res r) ev (s_store s')) = true /\
+  old_certs_ra (all_gen_keys ev ++ old) (s_store s').
+Proof.
+  intros Hnd Hfresh Hold Hra.
+  pose proof (run_body_gen_keys e po hs s) as Hgk.
+  unfold run_body in *.
+  destruct (auth_loop e po 0 hs s) as [[s1 ev1] r1] eqn:Ha.
+  apply auth_loop_spec in Ha as [Hao [_ [Hst1 [Hk1 [_ Hr]]]]].
+  (* a run that does not touch the store *)
+  assert (Hsame : forall (rr : res unit) evx sx, s_store sx = s_store s ->
+            (forall k, In k (all_gen_keys evx) -> exists n, (s_kdraws s <= n)%nat /\ k = e_keypair e n) ->
+            old_certs_ra (all_gen_keys evx ++ old) (s_store sx)).
+  { intros rr evx sx Heq Hkeys x k' sn Hx Hb Hin. rewrite Heq in Hx.
+    apply in_app_or in Hin as [Hin|Hin]; [|eapply Hra; eauto].
+    exfalso. destruct (Hkeys _ Hin) as [n [Hn ->]]. apply (Hfresh n Hn x Hx). rewrite Hb. reflexivity. }
+  assert (Hgen_none : forall (rr : res unit),
+            oracle_c03_gen old hs (mkObs (obs_res rr) ev1 (s_store s1)) = true).
+  { intro rr. unfold oracle_c03_gen. cbn [o_res o_log o_store].
+    destruct (obs_res rr); [reflexivity|]. rewrite (split_gen_auth_only _ Hao). reflexivity. }
+  destruct r1 as [[[i h]|]|k|].
+  2-4: (split; [apply Hgen_none | apply (Hsame (RErr KAllAuthFailed)); [exact Hst1|];
+        intros k0 Hk0; specialize (Hgk _ _ _ eq_refl) as [_ Hg]; destruct (Hg _ Hk0) as [n [Hn ->]]; exists n; split; [lia|reflexivity]]).
+  destruct (after_select e po i h s1) as [[s2 ev2] r2] eqn:Hs.
+  specialize (Hgk _ _ _ eq_refl) as [_ Hkeys].
+  assert (Hkeys' : forall k, In k (all_gen_keys (ev1 ++ ev2)) -> exists n, (s_kdraws s <= n)%nat /\ k = e_keypair e n).
+  { intros k0 Hk0. destruct (Hkeys _ Hk0) as [n [Hn ->]]. exists n. split; [lia|reflexivity]. }
+  destruct Hr as [_ [Hnth _]]. rewrite Nat.sub_0_r in Hnth.
+  destruct h as [c|np a g].
+  - (* the regular handler generates *)
+    pose proof Hs as Hs0.
+    apply after_select_regular_store in Hs as [rest [-> [_ [_ [Hinv [_ [_ Hok]]]]]]];
+      [| rewrite Hst1; exact Hnd | rewrite Hst1, Hk1; apply Hfresh; lia].
+    rewrite Hst1, Hk1 in *.
+    set (k := e_keypair e (s_kdraws s)) in *.
+    assert (Hknew : ~ In k old) by (apply Hold; lia).
+    split.
+    + unfold oracle_c03_gen. cbn [o_res o_log o_store].
+      destruct (obs_res r2) eqn:Hres; [reflexivity|].
+      rewrite (split_gen_app _ _ _ Hao), Hnth.
+      assert (Hr2 : r2 = ROk tt).
+      { destruct r2 as [[]|k2|]; [reflexivity|discriminate|discriminate]. }
+      destruct (Hok Hr2) as [_ [_ [_ Hlab]]].
+      apply forallb_forall. intros x Hx. destruct (i_blob x) as [kb|k' sn] eqn:Hb; [reflexivity|].
+      apply negb_true_iff. destruct (in_keys k' old) eqn:Hin; [|reflexivity]. exfalso.
+      apply in_keys_In in Hin.
+      destruct (Hinv x Hx) as [Hxs|[Hnew _]].
+      * (* an identity that was there before: a certificate of an earlier generation carries the label *)
+        destruct (Hra x k' sn Hxs Hb Hin) as [life ->].
+        specialize (Hlab _ Hx cert_label_labelled). cbn [i_priv cert_ident] in Hlab. subst k'. contradiction.
+      * pose proof (new_ident_blob_key _ _ _ Hnew) as Hk. rewrite Hb in Hk. cbn [blob_key] in Hk. subst k'. contradiction.
+    + intros x k' sn Hx Hb Hin. destruct (Hinv x Hx) as [Hxs|[Hnew _]].
+      * apply in_app_or in Hin as [Hin|Hin]; [|eapply Hra; eauto].
+        exfalso. destruct (Hkeys' _ Hin) as [n [Hn ->]]. apply (Hfresh n Hn x Hxs). rewrite Hb. reflexivity.
+      * destruct Hnew as [->|[sn' ->]]; [discriminate|]. injection Hb as <- <-. eexists. reflexivity.
+  - (* a foreign handler generates: the agent is not touched *)
+    pose proof (after_select_scripted_store _ _ _ _ _ _ _ _ _ _ Hs) as Hst2.
+    destruct (after_select_events _ _ _ _ _ _ _ _ Hs) as [rest [-> _]].
+    split.
+    + unfold oracle_c03_gen. cbn [o_res o_log o_store].
+      destruct (obs_res r2); [reflexivity|]. rewrite (split_gen_app _ _ _ Hao), Hnth. reflexivity.
+    + apply (Hsame r2); [rewrite Hst2; exact Hst1 | exact Hkeys'].
+Qed.
+
 (** ** Sessions *)
 Definition store_inv (keypair : nat -> N) (s : state) : Prop :=
   NoDup (map i_blob (s_store s)) /\
   forall n, (s_kdraws s <= n)%nat -> forall x, In x (s_store s) -> blob_key (i_blob x) <> keypair n.
 
-Theorem oracle_c03_session_model chal keypair : Injective keypair -> forall rs s,
+Theorem oracle_c03_session_model chal keypair : Injective keypair -> forall rs s old,
   store_inv keypair s ->
-  oracle_c03_session (s_store s) rs (snd (session chal keypair rs s)) = true.
+  (forall n, (s_kdraws s <= n)%nat -> ~ In (keypair n) old) ->
+  old_certs_ra old (s_store s) ->
+  oracle_c03_session old (s_store s) rs (snd (session chal keypair rs s)) = true.
 Proof.
-  intro Hinj. induction rs as [|ri rest IH]; intros s [Hnd Hfresh]; simpl; [reflexivity|].
+  intro Hinj. induction rs as [|ri rest IH]; intros s old [Hnd Hfresh] Hold Hra; simpl; [reflexivity|].
   unfold run_once.
   pose proof (oracle_c03_run_model (run_env chal keypair ri) (ri_params ri) (ri_handlers ri) (start_run s)) as Ho.
-  cbn [start_run s_store s_kdraws run_env e_keypair e_signer] in Ho.
-  specialize (Ho Hnd (Hfresh _ (le_n _))).
+  pose proof (oracle_c03_gen_model (run_env chal keypair ri) (ri_params ri) (ri_handlers ri) (start_run s) old) as Hg.
+  cbn [start_run s_store s_kdraws run_env e_keypair e_signer] in Ho, Hg.
+  specialize (Ho Hnd (Hfresh _ (le_n _))). specialize (Hg Hnd Hfresh Hold Hra).
   destruct (run_body (run_env chal keypair ri) (ri_params ri) (ri_handlers ri) (start_run s))
     as [[s1 ev] r] eqn:Hr.
-  apply run_body_gen_keys in Hr as [Hle _]. cbn [start_run s_kdraws] in Hle.
-  destruct Ho as [Ho [Hnd1 Hinv1]].
-  specialize (IH s1). destruct (session chal keypair rest s1) as [s2 os2].
-  simpl in *. rewrite Ho. simpl. apply IH. split; [exact Hnd1|].
-  intros n Hn x Hx. apply Hinv1 in Hx as [Hx|[Hx Hlt]].
-  - apply Hfresh; [lia | exact Hx].
-  - rewrite Hx. intro Heq. apply Hinj in Heq. lia.
+  apply run_body_gen_keys in Hr as [Hle Hkeys]. cbn [start_run s_kdraws run_env e_keypair] in Hle, Hkeys.
+  destruct Ho as [Ho [Hnd1 Hinv1]]. destruct Hg as [Hg Hra1].
+  specialize (IH s1 (all_gen_keys ev ++ old)). destruct (session chal keypair rest s1) as [s2 os2].
+  simpl in *. rewrite Ho, Hg. simpl. apply IH.
+  - split; [exact Hnd1|].
+    intros n Hn x Hx. apply Hinv1 in Hx as [Hx|[Hx Hlt]].
+    + apply Hfresh; [lia | exact Hx].
+    + rewrite Hx. intro Heq. apply Hinj in Heq. lia.
+  - intros n Hn Hin. apply in_app_or in Hin as [Hin|Hin].
+    + destruct (Hkeys _ Hin) as [m [Hm Heq]]. apply Hinj in Heq. lia.
+    + eapply Hold; [|exact Hin]. lia.
+  - exact Hra1.
 Qed.
